@@ -112,6 +112,8 @@ func cmdCases(args []string) {
 		obs, err = cases.Restart(w, raws)
 	case "keycodec":
 		obs, err = cases.KeyCodec(w, raws)
+	case "lookup":
+		obs, err = cases.Lookup(raws)
 	case "proxyxform":
 		obs, err = cases.ProxyXform(w, raws)
 	default:
